@@ -358,15 +358,12 @@ SHUTDOWN / SHUTDOWN-ACK chunks are not modelled. Returns the packets and the `ok
 def gather (s : St) : St × List Out × Bool :=
   if s.willSendAbort then ({ s with willSendAbort := false }, [.abort], false)
   else
-    let outs := s.control
-    let s := { s with control := [] }
     let st0 := s.state
-    let s := if st0 == 5#32 then { s with state := 7#32 } else if st0 == 6#32 then { s with state := 4#32 } else s
-    let sends := st0 == 3#32 || st0 == 5#32 || st0 == 6#32 || st0 == 7#32
-    if sends && sack_pending (a_ackState := s.ackState) then
-      let r := createSack { s with ackState := ackStateIdle }
-      (r.1, outs ++ [r.2], true)
-    else (s, outs, true)
+    let s1 := { s with control := [], state := if st0 == 5#32 then 7#32 else if st0 == 6#32 then 4#32 else st0 }
+    if (st0 == 3#32 || st0 == 5#32 || st0 == 6#32 || st0 == 7#32) && sack_pending (a_ackState := s.ackState) then
+      let r := createSack { s1 with ackState := ackStateIdle }
+      (r.1, s.control ++ [r.2], true)
+    else (s1, s.control, true)
 
 /-- Go: `onAckTimeout` -/
 def ackTimeout (s : St) : St := { s with ackState := ackStateImmediate }
